@@ -136,6 +136,51 @@ func MergeDoc(t *rapid.T) *YDoc {
 		root.Keys = append(root.Keys, &YN{K: YScalar, T: "str", S: fmt.Sprintf("m%d", i)})
 		root.Vals = append(root.Vals, v)
 	}
+	// an anchor name may be defined again: an alias means the latest definition before it. Give a base the name of
+	// the base before it (when it does not point at that one itself) and let every later alias of the old name
+	// mean the new node - which is what the text now says.
+	if len(bases) >= 2 && rapid.IntRange(0, 3).Draw(t, "reuse") == 0 {
+		j := rapid.IntRange(1, len(bases)-1).Draw(t, "reusej")
+		prev, cur := bases[j-1], bases[j]
+		refers := false
+		cur.Walk(func(x *YN) {
+			if x.K == YAlias && x.Target == prev {
+				refers = true
+			}
+		})
+		if !refers {
+			old := cur.Anchor
+			cur.Anchor = prev.Anchor
+			after := false
+			for i := range root.Vals {
+				top := root.Vals[i]
+				if top == cur {
+					after = true
+					continue
+				}
+				top.Walk(func(x *YN) {
+					if x.K != YAlias {
+						return
+					}
+					if x.Target == cur {
+						x.TName = cur.Anchor
+					}
+					if after && x.Target == prev {
+						x.Target, x.TName = cur, cur.Anchor
+					}
+				})
+				if top.K == YAlias {
+					if top.Target == cur {
+						top.TName = cur.Anchor
+					}
+					if after && top.Target == prev {
+						top.Target, top.TName = cur, cur.Anchor
+					}
+				}
+			}
+			_ = old
+		}
+	}
 	return &YDoc{Root: root}
 }
 
